@@ -10,7 +10,7 @@ def handleSync (c : J) : Res := Id.run do
   let (ns, name) := splitKey (c.getStr "key")
   let mut r : Res := { sig := (J.obj [("cfg", c.getD "cfg"), ("cache", c.getD "cache"), ("calls", c.getD "calls")]).render }
   if c.getStr "ctl" == "composite" then
-    let (fin, st) := replay (syncComposite cfg cache ns name) { recs := recs.map (·, false) } 400
+    let (fin, st) := replay (syncCompositeFull cfg cache ns name (c.getStr "revName")) { recs := recs.map (·, false) } 600
     for m in st.mismatches do r := disagree r m
     match fin with
     | none => pure ()
